@@ -47,13 +47,18 @@ def gen(rng, i, tier):
     else:
         om3 = geom * (2 - g)                    # denom3 = 0
         om = min(max(om3 + uni(rng, -0.05, 0.05), 0.0), 0.95 * geom)
-    return dict(geom=geom, kw=dict(gamma=g, rho0=logu(rng, 0.05, 20), omega=om, eblast=logu(rng, 0.05, 20)), t=logu(rng, 0.05, 5))
+    # "at every time": two cases out of three evaluate the solver object at another (earlier or later) time first
+    return dict(geom=geom, kw=dict(gamma=g, rho0=logu(rng, 0.05, 20), omega=om, eblast=logu(rng, 0.05, 20)), t=logu(rng, 0.05, 5),
+                t_before=[None, 0.37, 2.3][(i // 6) % 3])
 
 
 def run(ctx, p):
     from exactpack.solvers.sedov.sedov import Sedov
     geom, kw, t = p["geom"], p["kw"], p["t"]
     s = ctx.make(Sedov, geometry=geom, **kw)
+    if p.get("t_before"):
+        ctx.call(s, np.array([0.3, 1.0]), t * p["t_before"])
+        ctx.count("solver_object_used_at_another_time_first")
     ctx.call(s, np.array([1.0]), t)
     r2 = float(s.r2)
     styp = s.solution_type
